@@ -376,6 +376,10 @@ fn run_inner(case: &PsCase, facts: &mut PsFacts) -> Result<(), Outcome> {
         if s.si.failed() {
             continue;
         }
+        if !closed && s.si.closed() {
+            // "a publisher stream that ends affects nobody else ... the topic keeps serving"
+            return Err(Outcome::fail("healthy-subscriber-closed", format!("subscriber {si}: its sink was closed by the router although it never failed and the registration channel is open")));
+        }
         let buf = s.si.buf();
         if !buf.is_empty() {
             return Err(Outcome::fail(
